@@ -2244,6 +2244,25 @@ class PyCdlib:
         self._cdfp = fp
         self._iso_size = -1
 
+        try:
+            self._parse_opened_fp()
+        except (struct.error, IndexError, KeyError, ValueError, OverflowError, ZeroDivisionError) as err:
+            # The structures on the ISO are damaged in a way that none of the
+            # explicit checks anticipated (a length or an extent that points
+            # outside of the data that is there, a number that does not fit
+            # where it has to go, ...).  Whatever it is, the ISO is not valid.
+            raise pycdlibexception.PyCdlibInvalidISO('Invalid ISO: %s' % (str(err)))
+
+    def _parse_opened_fp(self):
+        # type: () -> None
+        """
+        An internal method to parse the ISO in self._cdfp.
+
+        Parameters:
+         None.
+        Returns:
+         Nothing.
+        """
         # Get the Primary Volume Descriptor (pvd), the set of Supplementary
         # Volume Descriptors (svds), the set of Volume Partition
         # Descriptors (vpds), the set of Boot Records (brs), and the set of
